@@ -435,9 +435,6 @@ def check_op(idx, rec, st, spec, case, ids_state, scripted):
             corr_fail("requests of one call carry different correlation ids %s" % ms, ms[0], ms[-1])
         prev = None
         for c, payload in coord_ids:
-            if ms and c <= ms[-1]:
-                failed = True
-                corr_fail("coordinator lookup uses id %d, not above the id %d of the call it serves" % (c, ms[-1]), c, ms[-1])
             if prev is not None:
                 if c < prev[0]:
                     failed = True
@@ -445,6 +442,16 @@ def check_op(idx, rec, st, spec, case, ids_state, scripted):
                 elif c == prev[0] and payload != prev[1]:
                     bad("two different lookups share correlation id %d" % c)
             prev = (c, payload)
+        # the ids in the order in which the frames of this call went out ("a correlation id that never decreases"): the group calls
+        # take the id of the commit / offset-fetch request BEFORE that of the coordinator lookup they then send first, so the lookup's
+        # frame (id c+2) precedes the request's frame (id c+1); known finding, class C09-lookup-id-order
+        wire = [(rq["correlation_id"], rq["api"]) for _, rq, _ in parsed]
+        for (c0, a0), (c1, a1) in zip(wire, wire[1:]):
+            if c1 < c0 and not (ids_state.get("hook") is not None and c0 >= WRAP - 8 and c1 < 8):
+                lookup_first = a0 == "group_coordinator" and a1 in ("offset_commit", "offset_fetch")
+                bad("frame of %s with correlation id %d goes out after the frame of %s with id %d" % (a1, c1, a0, c0),
+                    "C09-lookup-id-order" if lookup_first else "C09")
+                break
         last = ids_state.get("max")
         if last is not None and min(ids) <= last:
             failed = True
